@@ -36,6 +36,7 @@ PROJECTS = {
     "subplan_tree": ("f_subplan", {"inputs": "explicit"}),
     "chain": ("f_chain", {}),
     "glob_cfg": ("f_glob", {"mode": "tree", "cfg": 1}),
+    "glob_missing": ("f_glob", {"nest": 1}),
 }
 # sequences over several watch phases: ("REBUILD",) asks for a rebuild in between, in both variants
 MULTI_PHASE = {
@@ -49,6 +50,7 @@ MULTI_PHASE = {
     ],
 }
 TARGETS = {
+    "glob_missing": {"files": ["data/raw/a.txt", "data/raw/b.txt", "data/x.txt"], "dirs": ["data", "data/raw"]},
     "glob_cfg": {"files": ["cfg.txt", "data/a.txt", "data/c.txt"], "dirs": ["data"]},
     "glob_tree": {"files": ["data/a.txt", "data/c.txt", "out/a.out"], "dirs": ["data", "out"]},
     "glob_pattern": {"files": ["data/a.txt", "data/c.txt", "out/b.out"], "dirs": ["data"]},
